@@ -421,6 +421,12 @@ func samePathGenerations(c *ctx) string {
 			for bi, b := range gs {
 				sb, _, spec, err := buildObs(c, b, 1026)
 				must(err)
+				// a longer leftover of an earlier, interrupted attempt sits next to the destination
+				// (common temporary-file names): it is not the segment's business
+				for _, sfx := range []string{".tmp", "~", ".new"} {
+					mustH(os.WriteFile(path+sfx, bytes.Repeat([]byte{0xAB}, 200000), 0o600))
+					defer os.Remove(path + sfx)
+				}
 				if err := zap.PersistSegmentBase(sb, path); err != nil {
 					os.Remove(path)
 					return "Persist failed: " + err.Error()
